@@ -53,6 +53,47 @@ def runType (t : Ty) : String :=
     kv "i.droot" (rootO d),
     kv "i.dread" (optStr valStr (d.bind (Impl.readVal H t)))]
 
+/-- number of pair nodes of a tree -/
+def pairCount : Node → Nat
+  | .leaf _ => 0
+  | .pair l r => 1 + pairCount l + pairCount r
+
+/-- the type of the element an op writes, and its value -/
+def opPayload (t : Ty) (op : Impl.Op) : Option (Ty × Val) :=
+  match t, op with
+  | .vector et _, .set _ v => if et.isBasic then none else some (et, v)
+  | .list et _, .set _ v => if et.isBasic then none else some (et, v)
+  | .list et _, .append v => if et.isBasic then none else some (et, v)
+  | .container fs, .set i v => (fs[i]?).map fun ft => (ft, v)
+  | .union hasNone opts, .change sel v => (Spec.optType hasNone opts sel).map fun ot => (ot, v)
+  | _, _ => none
+
+/-- upper bound on the pair-hash invocations of one mutation followed by `hash_tree_root()` on a
+    fully hashed value: the length of the changed path plus the pairs of the inserted sub-value
+    (+1 for pop: the length node is rebound after the summarisation). See Rmk/Proofs/HeapLaws. -/
+def costBound (t : Ty) (op : Impl.Op) : Nat :=
+  let payload := match opPayload t op with
+    | some (et, v) => (match Impl.construct H et v with | some n => pairCount n | none => 0)
+    | none => 0
+  Impl.treeDepth t + payload + (match op with | .pop => 1 | _ => 0)
+
+/-- gindex of the bottom node an op writes (sharing check: every fresh node is on the path to it or below it) -/
+def targetGindex (t : Ty) (n : Node) (op : Impl.Op) : Option Nat :=
+  let d := Impl.treeDepth t
+  let per (et : Ty) := if et.isBasic then 32 / et.basicSize else 1
+  match t, op with
+  | .vector et _, .set i _ => toGindex (i / per et) d
+  | .list et _, .set i _ => toGindex (i / per et) d
+  | .list et _, .append _ => (Impl.listLength H n).bind fun len => toGindex (len / per et) d
+  | .list et _, .pop => (Impl.listLength H n).bind fun len => toGindex ((len - 1) / per et) d
+  | .container _, .set i _ => toGindex i d
+  | .bitvector _, .set i _ => toGindex (i / 256) d
+  | .bitlist _, .set i _ => toGindex (i / 256) d
+  | .bitlist _, .append _ => (Impl.listLength H n).bind fun len => toGindex (len / 256) d
+  | .bitlist _, .pop => (Impl.listLength H n).bind fun len => toGindex ((len - 1) / 256) d
+  | .union _ _, .change _ _ => some 1
+  | _, _ => none
+
 /-- a mutation history: the spec value and the impl tree side by side; a failed op leaves both unchanged -/
 def runHist (t : Ty) (v0 : Val) (ops : List Impl.Op) : String :=
   let n0 := Impl.construct H t v0
@@ -73,7 +114,9 @@ def runHist (t : Ty) (v0 : Val) (ops : List Impl.Op) : String :=
         kv (p ++ ".i") (match inn with | some _ => "ok" | none => "err"),
         kv (p ++ ".iroot") (rootO n'),
         kv (p ++ ".iread") (optStr valStr (n'.bind (Impl.readVal H t))),
-        kv (p ++ ".ibytes") (hexO ((n'.bind (Impl.serTree H t)).map (·.1)))]
+        kv (p ++ ".ibytes") (hexO ((n'.bind (Impl.serTree H t)).map (·.1))),
+        kv (p ++ ".bound") (toString (costBound t op)),
+        kv (p ++ ".tgt") (optStr toString (n.bind fun nn => targetGindex t nn op))]
       go (k + 1) v' n' rest (out.reverse ++ acc)
   join (kv "i.root0" (rootO n0) :: go 0 v0 n0 ops [])
 
@@ -195,6 +238,98 @@ def runStore (t : Ty) (v : Val) (ops : List (Impl.SOp ⊕ Nat)) : String :=
         go (k + 1) s' snaps' rest (out.reverse ++ acc)
     join (go 0 [{ ty := t, backing := n0, hook := none }] [] ops [])
 
+/-- element `i` of a view, read through the view API (composition of model functions) -/
+def readElem (t : Ty) (n : Node) (i : Nat) : Option Val :=
+  match t with
+  | .vector et len =>
+    if i ≥ len then none else
+    if et.isBasic then
+      let per := 32 / et.basicSize
+      (Impl.getAt n (i / per) (Impl.treeDepth t)).bind fun c => Impl.readBasicAt H et c (i % per)
+    else (Impl.getAt n i (Impl.treeDepth t)).bind (Impl.readVal H et)
+  | .list et _ =>
+    match Impl.listLength H n with
+    | none => none
+    | some len =>
+      if i ≥ len then none else
+      if et.isBasic then
+        let per := 32 / et.basicSize
+        (Impl.getAt n (i / per) (Impl.treeDepth t)).bind fun c => Impl.readBasicAt H et c (i % per)
+      else (Impl.getAt n i (Impl.treeDepth t)).bind (Impl.readVal H et)
+  | .container fs =>
+    match fs[i]? with
+    | none => none
+    | some ft => (Impl.getAt n i (Impl.treeDepth t)).bind (Impl.readVal H ft)
+  | .bitvector len =>
+    if i ≥ len then none else
+    (Impl.getAt n (i / 256) (Impl.treeDepth t)).map fun c => .num (if Impl.bitOfChunk (c.root H) i then 1 else 0)
+  | .bitlist _ =>
+    match Impl.listLength H n with
+    | none => none
+    | some len =>
+      if i ≥ len then none else
+      (Impl.getAt n (i / 256) (Impl.treeDepth t)).map fun c => .num (if Impl.bitOfChunk (c.root H) i then 1 else 0)
+  | _ => none
+
+def viewLen (t : Ty) (n : Node) : Option Nat :=
+  match t with
+  | .vector _ len => some len
+  | .bitvector len => some len
+  | .bytevector len => some len
+  | .list _ _ => Impl.listLength H n
+  | .bitlist _ => Impl.listLength H n
+  | .bytelist _ => (Impl.readVal H t n).map fun v => match v with | .bytes bs => bs.length | _ => 0
+  | _ => none
+
+inductive POp where
+  | read | elem (i : Nat) | len | bytes | root | mut (op : Impl.Op)
+
+def toPOp : Sexp → Option POp
+  | .list [.atom "read"] => some .read
+  | .list [.atom "elem", i] => (atomNat i).map .elem
+  | .list [.atom "len"] => some .len
+  | .list [.atom "bytes"] => some .bytes
+  | .list [.atom "root"] => some .root
+  | s => (toOp s).map .mut
+
+def okStr (o : Option String) : String := match o with | some s => "ok:" ++ s | none => "err"
+
+/-- run read / mutation ops on a backing tree; a failed op leaves the tree unchanged -/
+def runPOps (t : Ty) (n0 : Node) (ops : List POp) (key : String) : List String :=
+  let rec go (k : Nat) (n : Node) (ops : List POp) (acc : List String) : List String :=
+    match ops with
+    | [] => acc.reverse
+    | op :: rest =>
+      let (n', res) : Node × String :=
+        match op with
+        | .read => (n, okStr ((Impl.readVal H t n).map valStr))
+        | .elem i => (n, okStr ((readElem t n i).map valStr))
+        | .len => (n, okStr ((viewLen t n).map toString))
+        | .bytes => (n, okStr ((Impl.serTree H t n).map fun p => hexOf p.1))
+        | .root => (n, "ok:" ++ hexOf (n.root H))
+        | .mut o =>
+          match Impl.apply H t n o with
+          | some m => (m, "ok:" ++ hexOf (m.root H))
+          | none => (n, "err")
+      go (k + 1) n' rest (kv (toString k ++ "." ++ key) res :: acc)
+  go 0 n0 ops []
+
+def runPartial (t : Ty) (v : Val) (positions : List Nat) (ops : List POp) : String :=
+  match Impl.construct H t v with
+  | none => "i.ctor=err"
+  | some n =>
+    let (pn, done) := positions.foldl (fun (acc : Node × String) g =>
+      match summarizeInto H acc.1 g with
+      | some m => (m, acc.2 ++ "1")
+      | none => (acc.1, acc.2 ++ "0")) (n, "")
+    join ([kv "i.summ" done, kv "i.root" (hexOf (pn.root H)), kv "i.croot" (hexOf (n.root H))]
+      ++ runPOps t pn ops "i" ++ runPOps t n ops "ic")
+
+def runVirt (t : Ty) (v : Val) (ops : List POp) : String :=
+  match Impl.construct H t v with
+  | none => "i.ctor=err"
+  | some n => join ([kv "i.root" (hexOf (n.root H))] ++ runPOps t n ops "ic")
+
 def toOperand (w v : Sexp) : Option Impl.Operand := do
   let v ← atomInt v
   match w with
@@ -207,6 +342,9 @@ def runCase (xs : List Sexp) : Option String :=
   | [.atom "type", t] => do pure (runType (← toTy t))
   | .atom "hist" :: t :: v :: ops => do pure (runHist (← toTy t) (← toVal v) (← ops.mapM toOp))
   | .atom "store" :: t :: v :: ops => do pure (runStore (← toTy t) (← toVal v) (← ops.mapM toSOp))
+  | .atom "partial" :: t :: v :: .list (.atom "pos" :: gs) :: ops => do
+    pure (runPartial (← toTy t) (← toVal v) (← gs.mapM atomNat) (← ops.mapM toPOp))
+  | .atom "virt" :: t :: v :: ops => do pure (runVirt (← toTy t) (← toVal v) (← ops.mapM toPOp))
   | [.atom "dec", t, .atom pre, .atom body, .atom post] => do
     pure (runDec (← toTy t) (← unhexAux (pre.toList.drop 1)) (← unhexAux (body.toList.drop 1))
       (← unhexAux (post.toList.drop 1)))
